@@ -138,6 +138,11 @@ fn producers(cal: &Calendar, j: i32, g: &mut Gen) -> Vec<(&'static str, Date)> {
     }
     out.push(("chrono round trip", chrono::NaiveDate::try_from(d).ok().map(|x| Date::from(x).convert_to(*cal))));
     out.push(("time round trip", time::Date::try_from(d).ok().map(|x| Date::from(x).convert_to(*cal))));
+    if *cal == Calendar::GREGORIAN {
+        // the foreign conversions hand out dates of the Gregorian calendar: taken as they come
+        out.push(("From<chrono::NaiveDate>", chrono::NaiveDate::try_from(d).ok().map(Date::from)));
+        out.push(("From<time::Date>", time::Date::try_from(d).ok().map(Date::from)));
+    }
     out.push(("at_unix_time", cal.at_unix_time(julian::jdn2unix(j)).ok().map(|x| x.0)));
     if let Some(f) = cal.first_gregorian_date() {
         if f.julian_day_number() == j {
@@ -244,6 +249,8 @@ fn one_case_global(prop: &str, g: &mut Gen, cx: &mut Ctx) -> bool {
                 }
                 Err(ReformingError::InvalidReformation) => cx.check(r < crate::gen::R_MIN, || format!("reforming({r}) = InvalidReformation")),
                 Err(ReformingError::Arithmetic) => cx.check(r > crate::gen::R_MAX, || format!("reforming({r}) = Arithmetic")),
+                #[allow(unreachable_patterns)]
+                Err(other) => cx.check(false, || format!("reforming({r}) = {other:?}")),
             }
             true
         }
